@@ -24,7 +24,7 @@ META = {
     "level": "proof",
     "technique": "Coq theorems (generic restart-chain equivalence by induction over the chain; exact recovery of the generator state; exactness of re-issued jobs from the REPEX invariant) + byte-for-byte comparison of straight and restarted runs of the real program at every split point",
     "text": "Unbounded theorems: for any deterministic step function whose persisted image is recovered up to an equivalence the step respects, every chain of stop/restart segments yields the same final state and exactly the same emitted rows as the straight run; the scheduler's generator (entropy = seed, spawn counter, bit-generator state) is recovered exactly by the repaired set_rgen from what write_toml stores for every seed, step and number of in-flight jobs (the original set_rgen is refuted for seed != 0 and for several workers); a job re-issued by pick_lock holds exactly the recorded ensembles and paths, sitting in those ensembles, and is re-entered in the lock list. Tie: infretis_data.txt and restart.toml of the real program compared byte for byte between straight runs and runs restarted at EVERY split point (and chains of 2-3 restarts) for several seeds, step counts and move sets; same-seed runs compared (lattice, TurtleMD); generator state observed before the stop and after the restart; multi-worker restarts re-issue exactly the recorded jobs.",
-    "note": "Trusted: Coq kernel; extraction + OCaml driver; harness (a stop is a process-level stop between two completions: the in-process runner has already executed the next job, whose files stay in the worker directory, as after a real kill). The instance hypotheses of the generic theorem (the real step function is deterministic given the generator state; recovery restores every field the step reads: paths to six decimals on the lattice, weights, fractions, locks) are not proved in Coq: they are what the byte-for-byte comparison checks. Scope as in the property: order files carry six decimals (the lattice plug-in's values are exactly representable; with TurtleMD only same-seed runs are compared), allowmaxlength's 'ld' marker is not persisted. Bit-generator state round trip through TOML is checked, not proved.",
+    "note": "Trusted: Coq kernel; extraction + OCaml driver; harness (a stop is a process-level stop between two completions: the in-process runner has already executed the next job, whose files stay in the worker directory, as after a real kill). The instance hypotheses of the generic theorem (the real step function is deterministic given the generator state; recovery restores every field the step reads: paths to six decimals on the lattice, weights, fractions, locks) are not proved in Coq: they are what the byte-for-byte comparison checks. Scope as in the property: order files carry six decimals (the lattice plug-in's values are exactly representable; with TurtleMD only same-seed runs are compared), the loss of the 'initial path' marker ('ld' -> 're') at a restart is kept out by allowmaxlength = true in every compared run (a false alarm of the first thorough run: seed 1, sh,sh,wf,wf, restart at step 1, without that setting). Bit-generator state round trip through TOML is checked, not proved.",
     "design_ref": "4/C06",
 }
 LEVEL = "proof"
@@ -88,7 +88,9 @@ def case_run(case):
     wd0 = H.scratch("infv_c06a_")
     wd1 = H.scratch("infv_c06b_")
     try:
-        kw = dict(n_intf=n_intf, moves=moves, workers=W, steps=N, seed=seed, cap=cap)
+        # scope of the property: the documented loss of the 'initial path' marker ('ld' -> 're') at a
+        # restart is kept out by allowmaxlength = true
+        kw = dict(n_intf=n_intf, moves=moves, workers=W, steps=N, seed=seed, cap=cap, allowmaxlength=True)
         H.write_setup(wd0, **kw)
         r0 = H.run_sim(wd0)
         if r0["status"] != "done":
